@@ -98,7 +98,8 @@ pub fn check(c: &mut Case, files: &Files, nvariants: usize) {
             }
         }
     }
-    match c.lib("fe9_arc::parse", || fe9_arc::parse(&img)) {
+    let img_t = crate::monitor::tight(&img);
+    match c.lib("fe9_arc::parse", || fe9_arc::parse(&img_t)) {
         None => {}
         Some(Err(e)) => c.fail("roundtrip", "parse_err", format!("parse(serialize(m)) returned Err({}); {}", e, describe(files))),
         Some(Ok(got)) => {
@@ -126,7 +127,8 @@ pub fn check(c: &mut Case, files: &Files, nvariants: usize) {
         if plan.reverse_bodies && files.len() >= 2 {
             c.sit("variant_bodies_reversed");
         }
-        match c.lib("fe9_arc::parse(variant)", || fe9_arc::parse(&v)) {
+        let v_t = crate::monitor::tight(&v);
+        match c.lib("fe9_arc::parse(variant)", || fe9_arc::parse(&v_t)) {
             None => {}
             Some(Err(e)) => c.fail("variant", "variant_err", format!("parse rejected a conforming re-arrangement {:?} with Err({}); {}", plan, e, describe(files))),
             Some(Ok(got)) => {
